@@ -11,6 +11,7 @@ import (
 	dbm "github.com/tendermint/tm-db"
 
 	stypes "github.com/pokt-network/posmint/store/types"
+	authTypes "github.com/pokt-network/posmint/x/auth/types"
 	govTypes "github.com/pokt-network/posmint/x/gov/types"
 	posTypes "github.com/pokt-network/posmint/x/pos/types"
 )
@@ -35,6 +36,20 @@ func (f *Fam) monExport(fail func(string, string, string)) {
 		if acl.Validate(adj) != nil {
 			f.extra["c01:export-skipped-acl-incomplete"]++
 			return
+		}
+	}
+	// ... and the auth module ends the process (log.Fatal) when the imported fee multipliers name a message type twice,
+	// which governance can bring about too
+	{
+		var fm authTypes.FeeMultipliers
+		authTypes.ModuleCdc.UnmarshalJSON([]byte(f.app.Snap().Params["auth/FeeMultipliers"]), &fm)
+		seen := map[string]bool{}
+		for _, e := range fm.FeeMultis {
+			if seen[e.Key] {
+				f.extra["c01:export-skipped-duplicate-fee-multiplier"]++
+				return
+			}
+			seen[e.Key] = true
 		}
 	}
 	type outcome struct {
